@@ -7101,8 +7101,8 @@ def FillUnitDatabaseWithPosc(
         f_unit_to_base,
         default_category="permeability length",
     )
-    f_unit_to_base = MakeCustomaryToBase(0.0, 9.86932e-016, 47.88026, 0.0)
-    f_base_to_unit = MakeBaseToCustomary(0.0, 9.86932e-016, 47.88026, 0.0)
+    f_unit_to_base = MakeCustomaryToBase(0.0, 9.86923e-016, 47.88026, 0.0)
+    f_base_to_unit = MakeBaseToCustomary(0.0, 9.86923e-016, 47.88026, 0.0)
     db.AddUnit(
         "unit productivity index",
         "millidarcy sq feet/pound force second",
@@ -7111,8 +7111,8 @@ def FillUnitDatabaseWithPosc(
         f_unit_to_base,
         default_category="mobility",
     )
-    f_unit_to_base = MakeCustomaryToBase(0.0, 9.86932e-016, 6894.757, 0.0)
-    f_base_to_unit = MakeBaseToCustomary(0.0, 9.86932e-016, 6894.757, 0.0)
+    f_unit_to_base = MakeCustomaryToBase(0.0, 9.86923e-016, 6894.757, 0.0)
+    f_base_to_unit = MakeBaseToCustomary(0.0, 9.86923e-016, 6894.757, 0.0)
     db.AddUnit(
         "unit productivity index",
         "millidarcy sq inches/pound force second",
@@ -7121,8 +7121,8 @@ def FillUnitDatabaseWithPosc(
         f_unit_to_base,
         default_category="mobility",
     )
-    f_unit_to_base = MakeCustomaryToBase(0.0, 9.86932e-016, 1.0, 0.0)
-    f_base_to_unit = MakeBaseToCustomary(0.0, 9.86932e-016, 1.0, 0.0)
+    f_unit_to_base = MakeCustomaryToBase(0.0, 9.86923e-016, 1.0, 0.0)
+    f_base_to_unit = MakeBaseToCustomary(0.0, 9.86923e-016, 1.0, 0.0)
     db.AddUnit(
         "volume",
         "millidarcy metres",
@@ -7141,8 +7141,8 @@ def FillUnitDatabaseWithPosc(
         f_unit_to_base,
         default_category="mobility",
     )
-    f_unit_to_base = MakeCustomaryToBase(0.0, 9.86932e-016, 1.0, 0.0)
-    f_base_to_unit = MakeBaseToCustomary(0.0, 9.86932e-016, 1.0, 0.0)
+    f_unit_to_base = MakeCustomaryToBase(0.0, 9.86923e-016, 1.0, 0.0)
+    f_base_to_unit = MakeBaseToCustomary(0.0, 9.86923e-016, 1.0, 0.0)
     db.AddUnit(
         "unit productivity index",
         "millidarcies/Pascal second",
